@@ -8,6 +8,7 @@ Line-protocol driver for the C04 model (Model/Rollup.lean).
   reopen | state
   rollupf <h> ivs=.. dvs=.. avail=.. fail=<k>   (complete run whose k-th manifest commit fails; the code goes on)
   rollupq <h> ivs=.. dvs=.. avail=..   (one family's job of a concurrent ForceRollup)
+  rollupw <h> ivs=.. dvs=.. avail=.. at=<n> <fh> <file> <ne> | <blocks>   (complete run with one flush committed before its record n)
   read <tgt>
   arith <src> <tgt> <srcSegTime> <fTime> | <slot> <slot> ...
   cfgz <src> <localDay,..> <code,..> | <tgt> ... | <off0> <at1> <off1> ...   (the same with time.Local = the zone with
@@ -244,6 +245,38 @@ def step (d : DS) (ws : List String) : DS × String :=
           ({ d with st := σ, tfiles := d.tfiles ++ o, wr := d.afterRun h ivs cut.isSome },
             s!"recs={rs} {d.showSt σ}")
     | _, _, _, _, _ => (d, "bad-op")
+  | "rollupw" :: h :: ivs :: dvs :: avail :: atS :: fh :: file :: ne :: "|" :: toks =>
+    -- a complete rollup run of family `h` with ONE flush (family `fh`, file `file`) committed between its
+    -- records: the flush record sits at position `at` of the committed list. The job's own records are
+    -- those of the run from the state at its start (Props/C04Weave: `rollup_job_ignores_flush`).
+    match h.toNat?, (kv? ivs "ivs").bind parseNatList, (kv? dvs "dvs").bind parseNatList,
+      (kv? avail "avail").bind parseNatList, (kv? atS "at").bind String.toNat?, fh.toNat?, file.toNat?, ne.toNat?,
+      toks.mapM parseBlock with
+    | some h, some ivs, some dvs, some av, some n, some fh, some f, some ne, some blocks =>
+      let av := d.effAvail h ivs av
+      let all := rollupRecs d.st h ivs (fun i => decide (i ∈ av)) dvs
+      if n > all.length then (d, "bad-op")
+      else if !(d.st.registered.all (fun p => decide (p.1 ≠ (fh, f))) && d.files.all (fun p => decide (p.1 ≠ (fh, f)))) then
+        (d, "stale-file-number")
+      else
+        let fl := Rec.flush (fh, f) (ne ≠ 0) d.tgts
+        let out := all.take n ++ [fl] ++ all.drop n
+        let outs : Option (List ((Iv × String) × FileData)) := all.foldl (fun acc r =>
+          match acc, r with
+          | some l, .merge i inputs =>
+            let fds := inputs.filterMap (fun k => (d.files.find? (·.1 = k)).map (·.2))
+            match mergeFiles Generated.C04.placementByTimestamp (d.rOf h i) fds with
+            | some o => some (l ++ [((i, d.locKey h i), o)])
+            | none => none
+          | acc, _ => acc) (some [])
+        match outs with
+        | none => ({ d with dead := true }, "panic-div0")
+        | some o =>
+          let σ := d.st.applyAll out
+          ({ d with st := σ, files := d.files ++ [((fh, f), blocks)], tfiles := d.tfiles ++ o,
+                    wr := d.afterRun h ivs false },
+            s!"recs={";".intercalate (out.map showRec)} {d.showSt σ}")
+    | _, _, _, _, _, _, _, _, _ => (d, "bad-op")
   | ["rollupq", h, ivs, dvs, avail] =>
     -- the job of family `h` inside ONE Store.ForceRollup (jobs of different families interleave;
     -- they touch disjoint keys, so the model runs them one after the other); state via `state`
